@@ -53,6 +53,15 @@ CHECKS += [
     },
 ]
 
+CHECKS += [
+    {
+        "property_id": "C17", "engine": "symx", "category": "model_checking",
+        "technique": "bounded symbolic execution of SimulationResult/SamplingResult with symbolic values + z3 (linear identities over the returned object's own state lists)",
+        "text": "For arbitrary real (complex for amplitudes) result values and output-state sets chosen so that images collide in every pattern: pair, nested and array indexing agree in the order of the object's own lists; threshold/parity mappings (plain, inverted, and a second application of any mapping) send every output to its image, add coinciding weights, keep row totals, leave the original untouched; amplitude-typed results are refused; SamplingResult returns the counts it was built from and conserves totals.",
+        "design_ref": "DESIGN.md section 4 C17", "note": SYMX_NOTE,
+    },
+]
+
 _TODO = "check not built yet in this round; see DESIGN.md section 4 for the plan"
 NOT_APPLICABLE = [
     {"property_id": f"C{i:02d}", "reason": _TODO} for i in range(2, 20) if f"C{i:02d}" not in {c["property_id"] for c in CHECKS}
